@@ -9,7 +9,7 @@ pub fn def() -> PropDef {
         builds: BOTH,
         rule: "every text over {L,SP,HY,NL,W,CR} up to length N x separator x algorithm x splitter x break_words x 4 indent pairs x LF/CRLF x width range, checked at every paragraph boundary; plus every history of <= 3/4 paragraphs through the real per-paragraph transition function; non-trivial = text/history with >= 2 paragraphs",
         assumptions: BASE_ASSUMPTIONS,
-        floor: |t| t.pick(100_000, 1_000_000),
+        floor: |t| t.pick(100_000, 300_000),
         run,
     }
 }
